@@ -316,7 +316,7 @@ class MultistageDistributor:
         :param max_seats: Maximum number of seats that the given
             candidate/party can obtain in total (including previous gains).
         """
-        elected = prev_gains.copy()
+        elected = self._copy_nested(prev_gains, self.depth)
         if hasattr(votes, 'items'):
             votes = [votes] * len(self.rounds)
         for stage, stage_votes in zip(self.rounds, votes):
@@ -325,6 +325,17 @@ class MultistageDistributor:
             )
             self._add_stage_results(elected, stage_res, self.depth)
         return elected
+
+    @classmethod
+    def _copy_nested(cls, gains, depth):
+        # copy the dictionaries of all nesting levels: the stage results
+        # are added in place and must not reach the caller's prev_gains
+        if depth <= 1:
+            return gains.copy()
+        return {
+            constituency: cls._copy_nested(con_gains, depth - 1)
+            for constituency, con_gains in gains.items()
+        }
 
     def _add_stage_results(self, elected, stage_res, depth):
         if depth == 1:
@@ -384,7 +395,7 @@ class UnusedVotesDistributor(MultistageDistributor):
                  prev_gains: Dict[Candidate, int] = {},
                  max_seats: Dict[Candidate, int] = {},
                  ) -> Dict[Candidate, int]:
-        elected = prev_gains.copy()
+        elected = self._copy_nested(prev_gains, self.depth)
         if max_seats:
             raise NotImplementedError('max_seats not supported')
         for stage, quota_fx in zip(self.rounds, self.quota_functions + [None]):
